@@ -38,9 +38,12 @@ ASSUME = ["reader soundness (DESIGN 5.3): in an operator-precedence grammar a co
           "infer_type is used through its mechanically derived summary (C18)"]
 
 
+SQL_DIALECTS = ("standard", "sqlite", "athena")
+
+
 def families(facts):
     fams = []
-    for d in Q.VISITORS:
+    for d in SQL_DIALECTS:          # the roundtrip printer shares the machinery but belongs to C13, not to this property
         cls = Q.VISITORS[d][0]
         for k in Q.handled_kinds(facts, cls):
             if k in OPSPLIT:
